@@ -829,6 +829,14 @@ def operator_to_BlockSeries(
         return operator
 
     # Separation into subspace_eigenvectors
+    # Explicitly given symbols label the perturbative parameters, otherwise keep the
+    # names recorded by the input conversion.
+    dimension_names = (
+        symbols
+        if symbols is not None and len(symbols) == operator.n_infinite
+        else operator.dimension_names
+    )
+
     if not to_split:
         zeroth_order = operator[(0,) * operator.n_infinite]
         if sparse.issparse(zeroth_order) or isinstance(
@@ -841,7 +849,7 @@ def operator_to_BlockSeries(
                 eval=lambda *index: operator[index[2:]],
                 shape=(1, 1),
                 n_infinite=operator.n_infinite,
-                dimension_names=operator.dimension_names,
+                dimension_names=dimension_names,
                 name=name or operator.name,
             )
 
@@ -913,7 +921,7 @@ def operator_to_BlockSeries(
         eval=op_eval,
         shape=(n_blocks, n_blocks),
         n_infinite=operator.n_infinite,
-        dimension_names=operator.dimension_names,
+        dimension_names=dimension_names,
         name=name or operator.name,
     )
 
